@@ -18,6 +18,7 @@ import (
 	"github.com/taurusgroup/multi-party-sig/pkg/party"
 	"github.com/taurusgroup/multi-party-sig/pkg/pool"
 	"github.com/taurusgroup/multi-party-sig/pkg/protocol"
+	"github.com/taurusgroup/multi-party-sig/protocols/cmp"
 	"github.com/taurusgroup/multi-party-sig/protocols/doerner"
 	"github.com/taurusgroup/multi-party-sig/protocols/frost"
 	"github.com/taurusgroup/multi-party-sig/verifharness/fault"
@@ -416,6 +417,29 @@ func runOnce(sc Scenario, seed string) (outcome, []sim.Event, bool) {
 				}
 				if strings.HasSuffix(su.proto, "-refresh") && !oracle.Equal(v.Group, su.group) {
 					bad = fmt.Sprintf("refresh changed the group key at %s", f.id)
+				}
+			}
+		}
+		// every t+1 honest finishers must be able to use the key: their secret shares combine to the group key and their
+		// table entries interpolate to it (a dealer whose polynomial has the wrong degree breaks exactly this)
+		if bad == "" && !strings.HasPrefix(su.proto, "doerner") && len(done) > su.t {
+			var fids []party.ID
+			for _, f := range done {
+				fids = append(fids, f.id)
+			}
+			first := views[fids[0]]
+			for _, sub := range judge.Subsets(fids, su.t+1, 12) {
+				var xs, ys []*big.Int
+				var pts []oracle.Pt
+				for _, id := range sub {
+					xs = append(xs, oracle.IDScalar(string(id)))
+					ys = append(ys, views[id].Secret)
+					pts = append(pts, first.Table[id])
+				}
+				if !oracle.Equal(oracle.BaseMul(oracle.InterpolateAt0(xs, ys)), first.Group) {
+					bad = fmt.Sprintf("the secret shares of the honest finishers %v do not combine to the group key", sub)
+				} else if !oracle.Equal(oracle.InterpolatePointsAt0(xs, pts), first.Group) {
+					bad = fmt.Sprintf("the public shares of %v do not interpolate to the group key", sub)
 				}
 			}
 		}
@@ -822,9 +846,27 @@ func (r *runner) dealerCheat(sess *protos.Session, label func(party.ID) string) 
 		mk = func() protocol.StartFunc { return frost.Refresh(cfgs[k].(*frost.Config), su.ids) }
 	case "taproot-refresh":
 		mk = func() protocol.StartFunc { return frost.RefreshTaproot(cfgs[k].(*frost.TaprootConfig), su.ids) }
+	case "cmp-keygen", "cmp-refresh":
+		if su.proto == "cmp-keygen" {
+			mk = func() protocol.StartFunc { return cmp.Keygen(protos.Group, k, su.ids, su.t, nil) }
+		} else {
+			mk = func() protocol.StartFunc { return cmp.Refresh(cfgs[k].(*cmp.Config), nil) }
+		}
+		if r.sc.Alt == "nonzero" && su.proto == "cmp-keygen" || strings.HasPrefix(r.sc.Alt, "eval") {
+			r.out.Applicable = false
+			r.out.Why = "not defined for this protocol"
+			return
+		}
+		protos.CmpDealerCheat(sess, k, r.sc.Alt, []byte("sid"), mk)
+		for _, id := range su.ids {
+			e.AddParty(id, r.newParty(sess, id, label(id)))
+		}
+		r.loop(nil)
+		r.out.Reached = true
+		return
 	default:
 		r.out.Applicable = false
-		r.out.Why = "dealer cheat applies to FROST key generation / refresh"
+		r.out.Why = "dealer cheat applies to key generation / refresh"
 		return
 	}
 	if strings.HasPrefix(r.sc.Alt, "eval") {
